@@ -309,8 +309,10 @@ push0_sock_send(void *arg, nni_aio *aio)
 		return;
 	}
 
-	// Can we queue it?
-	if (nni_lmq_put(&s->wq, m) == 0) {
+	// Can we queue it?  (Not while older sends are still waiting:
+	// enlarging the send buffer leaves them in the wait queue, and they
+	// must go first.)
+	if (nni_list_empty(&s->aq) && (nni_lmq_put(&s->wq, m) == 0)) {
 		// Yay, we can.  So we're done.
 		nni_aio_set_msg(aio, NULL);
 		nni_aio_finish(aio, 0, l);
